@@ -494,6 +494,24 @@ fn classify_hex_err(msg: &str) -> String {
     }
 }
 
+// ref <mode> <out_len> [<piece>,<piece>,...]: the reference implementation (C15)
+fn ref_case(f: &[&str], out: &mut Vec<String>) {
+    let mut h = match ModeSpec::parse(f[1]) {
+        ModeSpec::Hash => reference_impl::Hasher::new(),
+        ModeSpec::Keyed(k) => reference_impl::Hasher::new_keyed(&k),
+        ModeSpec::Derive(c) | ModeSpec::DeriveK(c) => reference_impl::Hasher::new_derive_key(&c),
+    };
+    let out_len: usize = f[2].parse().unwrap();
+    if f.len() > 3 && !f[3].is_empty() {
+        for p in f[3].split(',') {
+            h.update(&bytes(p));
+        }
+    }
+    let mut buf = vec![0u8; out_len];
+    h.finalize(&mut buf);
+    out.push(format!("x{}", hex(&buf)));
+}
+
 fn helper_case(f: &[&str], out: &mut Vec<String>) {
     match f[0] {
         "lsl" => out.push(format!("{}", hazmat::left_subtree_len(f[1].parse().unwrap()))),
@@ -566,6 +584,12 @@ fn run_case(line: &str) -> String {
             }
         }
         "lsl" | "msl" => helper_case(&toks, &mut out),
+        "ref" => {
+            let r = catch_unwind(AssertUnwindSafe(|| ref_case(&toks, &mut out)));
+            if r.is_err() {
+                out.push("PANIC".into());
+            }
+        }
         other => panic!("unknown case kind {other}"),
     }));
     if res.is_err() {
